@@ -20,6 +20,8 @@ from segments rebuilt by value.
 import copy
 import math
 
+import numpy as np
+
 from mc import core
 from mc.enc import seg2j, j2seg, path2j, outcome
 
@@ -56,6 +58,7 @@ def pool(tier):
     return p
 
 
+SYM_CUBIC = ['C', [0.0, 0.0], [1 * S, 1 * S], [2 * S, -1 * S], [3 * S, 0.0]]
 ZS = complex(-1 * S, -2 * S)
 ZE = complex(8 * S, 9 * S)
 
@@ -193,7 +196,7 @@ def rebuild_by_value(s):
 
 # ---------------------------------------------------------------- operations
 
-VARIANTS = ['main', 'close', 'samehash', 'alias']
+VARIANTS = ['main', 'close', 'samehash', 'alias', 'depth']
 
 
 def path_ops(n, tier, variant='main'):
@@ -253,6 +256,11 @@ def variant_ops(n, tier, variant):
         return base + ([['start=', 0], ['end=', 0], ['end=start'], ['start=end']] if n else []) + q
     if variant == 'samehash':
         return base + ([['start=', 2], ['start=', 3], ['end=', 2], ['end=', 3], ['set_samehash', 0, 2], ['set_samehash', 0, 3]] if n else []) + q
+    if variant == 'depth':
+        # a point-symmetric S-shaped cubic: the fallback recursion stops at once for min_depth=0 (its midpoint
+        # lies on the chord), so a length cached for (tiny error, min_depth 0) is NOT good enough for the defaults
+        return base + ([['set_sym', 0]] if n else []) + ([['append_sym']] if n < L else []) + \
+            ([['q_all'], ['q_length'], ['q_length_fine_shallow'], ['q_length_coarse']] if n else [])
     if variant == 'alias':
         al = []
         if n and n < L:
@@ -289,6 +297,12 @@ def apply_path_op(p, op, tier):
         p.pop()
     elif o == 'reverse':
         p.reverse()
+    elif o == 'append_sym':
+        p.append(j2seg(SYM_CUBIC))
+    elif o == 'set_sym':
+        p[op[1]] = j2seg(SYM_CUBIC)
+    elif o == 'q_length_fine_shallow':
+        return outcome(lambda: p.length(error=1e-13, min_depth=0))
     elif o == 'append_alias':
         p.append(p[op[1]])
     elif o == 'insert_alias':
@@ -509,6 +523,7 @@ SEG_SPECS = [
     ['Q', [10 * S, 1 * S], [13 * S, -4 * S], [6 * S, -4 * S]],
     ['C', [3 * S, 4 * S], [5 * S, 9 * S], [10 * S, 6 * S], [10 * S, 1 * S]],
 ]
+SEG_LABELLED = [(sp_[0], sp_) for sp_ in SEG_SPECS] + [('Csym', SYM_CUBIC)]
 ATTRS = {'L': ['start', 'end'], 'Q': ['start', 'control', 'end'],
          'C': ['start', 'control1', 'control2', 'end']}
 ALT = complex(2 * S, -7 * S)
@@ -516,6 +531,7 @@ ALT = complex(2 * S, -7 * S)
 SEG_QUERIES = [
     ['all'],
     ['length'],
+    ['length', 1e-13, 0],
     ['length', COARSE, 1],
     ['length', COARSE, 5],
     ['length', 1e-15, 7],
@@ -627,7 +643,8 @@ def inspect_seg(cfg, spec_kind):
     return inspect
 
 
-def successors_seg(cfg, spec):
+def successors_seg(cfg, spec, label=None):
+    label = label or spec[0]
     orig = {a: getattr(j2seg(spec), a) for a in ATTRS[spec[0]]}
 
     def succ(state, hist, acc):
@@ -650,10 +667,10 @@ def successors_seg(cfg, spec):
                     ok = abs(a[1] - truth) <= abs(b[1] - truth) * (1 + 1e-9) + TOL
                 if not ok:
                     acc.violation('segment_query_differs_from_fresh',
-                                  {'query': 'transition_' + seg_sig([op], 0)[0], 'kind': spec[0],
+                                  {'query': 'transition_' + seg_sig([op], 0)[0], 'kind': label,
                                    'config': cfg_name(cfg), 'ops': seg_sig(hist, op[1]),
                                    'object': 'reversed_copy' if op[1] else 'original'},
-                                  {'level': 'segment', 'config': cfg, 'kind': spec[0], 'history': hist + [op],
+                                  {'level': 'segment', 'config': cfg, 'kind': label, 'history': hist + [op],
                                    'transition': True},
                                   observed=a, expected=b, detail='transition %s after %s' % (op, hist))
             yield op, st
@@ -679,7 +696,14 @@ def run_hash_eq(acc):
             ('Q(0,1,2)', QuadraticBezier(0, 1, 2)), ('Q(0j,1.0,2+0j)', QuadraticBezier(0j, 1.0, 2 + 0j)),
             ('C(0,1,2,3)', CubicBezier(0, 1, 2, 3)), ('C(0j,1.0,2,3+0j)', CubicBezier(0j, 1.0, 2, 3 + 0j)),
             ('A1', Arc(0j, 2 + 1j, 0, 0, 1, 3 + 0j)), ('A2', Arc(0, 2.0 + 1j, 0.0, False, True, 3)),
-            ('A3', Arc(0j, -2 - 1j, 0, 0, 1, 3 + 0j))]
+            ('A3', Arc(0j, -2 - 1j, 0, 0, 1, 3 + 0j)),
+            # exact integers beyond 2**53 next to a float / complex control point: distinct values that a
+            # conversion to double would merge (== must not say equal unless the hashes agree)
+            ('Line(2**53+1,1j)', Line(2 ** 53 + 1, 1j)), ('Line(2**53,1j)', Line(2 ** 53, 1j)), ('Line(2.0**53,1j)', Line(2.0 ** 53, 1j)),
+            ('Q(2**53+1,0.5,1j)', QuadraticBezier(2 ** 53 + 1, 0.5, 1j)), ('Q(2**53,0.5,1j)', QuadraticBezier(2 ** 53, 0.5, 1j)),
+            ('C(0,1,2,2**62+1)', CubicBezier(0, 1.5, 2, 2 ** 62 + 1)), ('C(0,1,2,2**62)', CubicBezier(0, 1.5, 2, 2 ** 62)),
+            # and numpy scalars of the same value
+            ('Line(np0,np1)', Line(np.complex128(0), np.complex128(1))), ('Q(np)', QuadraticBezier(np.float64(0), np.float64(1), np.float64(2)))]
     for group, kind in ((objs, 'Path'), (segs, 'segment')):
         for i in range(len(group)):
             for j in range(i + 1, len(group)):
@@ -746,8 +770,8 @@ def shards(tier, seed):
         if tier == 'thorough' and cfg:
             # LMAX 3 over the 3-segment pool, scipy configuration only (the fallback costs ~5x per state)
             out.append({'what': 'path', 'config': cfg, 'variant': 'deep'})
-        for spec in SEG_SPECS:
-            out.append({'what': 'segment', 'config': cfg, 'spec': spec})
+        for label, spec in SEG_LABELLED:
+            out.append({'what': 'segment', 'config': cfg, 'spec': spec, 'label': label})
     out.append({'what': 'long', 'config': True})
     out.append({'what': 'long', 'config': False})
     out.append({'what': 'hash_eq'})
@@ -784,8 +808,8 @@ def run_shard(desc, tier, seed):
             acc.extra['fixpoint'] = {'path/%s/%s/%s' % (vt, ov, cfg_name(cfg)): bool(fix)}
         else:
             spec = desc['spec']
-            core.parallel_bfs([([], [j2seg(spec)])], successors_seg(cfg, spec), seg_key,
-                              inspect_seg(cfg, spec[0]), acc, jobs=16, max_depth=seg_depth(tier))
+            core.parallel_bfs([([], [j2seg(spec)])], successors_seg(cfg, spec, desc.get('label')), seg_key,
+                              inspect_seg(cfg, desc.get('label', spec[0])), acc, jobs=16, max_depth=seg_depth(tier))
             acc.caps_hit.clear()   # the depth bound is the stated bound, not a cap hit
             acc.extra['segment_depth_bound'] = seg_depth(tier)
     finally:
@@ -917,7 +941,7 @@ def expected_classes(tier):
             out.append('path/%s/len%d/nocache' % (c, n))
         for n in range(1, lmax(tier) + 1):
             out.append('path/%s/len%d/cached' % (c, n))
-        for k in 'LQC':
+        for k in ('L', 'Q', 'C', 'Csym'):
             out += ['segment/%s/%s/1' % (c, k), 'segment/%s/%s/2' % (c, k)]
     return out
 
@@ -973,9 +997,9 @@ def replay(case):
                 apply_path_op(p, hist[-1], tier) if hist else None
                 inspect_path(tier, cfg, case.get('ops', 'main'))(p, hist, acc)
         else:
-            spec = [s for s in SEG_SPECS if s[0] == case['kind']][0]
+            spec = dict(SEG_LABELLED)[case['kind']]
             state = [j2seg(spec)]
-            succ = successors_seg(cfg, spec)
+            succ = successors_seg(cfg, spec, case['kind'])
 
             def step(state, op):
                 for o, st in succ(state, [], core.Acc()):
@@ -991,7 +1015,7 @@ def replay(case):
             else:
                 if hist:
                     state = step(state, hist[-1])
-                inspect_seg(cfg, spec[0])(state, hist, acc)
+                inspect_seg(cfg, case['kind'])(state, hist, acc)
     finally:
         sp._quad_available = old
     return acc.vlist
